@@ -191,7 +191,7 @@ func (p *Prog) makeReplay(o *Obligation, prop, repo, outDir string) *ReplayRecor
 		// this way is only a candidate and counts solely if it reproduces on the real code.
 		rel := p.relax(o)
 		smtDir := filepath.Dir(r.File)
-		if r.File == "" {
+		if r.File == "" || smtDir == "." || !filepath.IsAbs(smtDir) {
 			smtDir = filepath.Join(outDir, "smt", prop)
 			os.MkdirAll(smtDir, 0o755)
 		}
